@@ -54,7 +54,16 @@ class Gen:
         r = self.rng
         k = r.randrange(10)
         if self.plain:
-            return r.choice([self.num(), r.choice(IDENTS), '"s t"', "'q'", "#abc", "#a1b2c3", "url(x.png)", "1px solid red"])
+            if k < 3:
+                # a plain CSS function whose name is a Sass built-in only after lower-casing: Sass function names are
+                # case sensitive, so both parsers must pass it through (checked on the unchanged tree for every
+                # name of c01_gen.GLOBAL_FUNCS in 4 spellings: css and scss agree)
+                n = r.choice(g.GLOBAL_FUNCS)
+                v = r.choice([n.upper(), n.capitalize(), n[:-1] + n[-1].upper(), "-".join(p.capitalize() for p in n.split("-"))])
+                if v != n:
+                    return f"{v}({r.choice(['1.5', 'red, 10%', '1, 2, 3', '#abc', '1px'])})"
+            return r.choice([self.num(), r.choice(IDENTS), '"s t"', "'q'", "#abc", "#a1b2c3", "url(x.png)", "1px solid red",
+                             "translate(1px, 2px)", "foo(1)", "rgb(1, 2, 3)", "1px -1px 2px -.5px"])
         if k < 3:
             return self.num()
         if k < 5 and vars_:
@@ -319,6 +328,20 @@ def print_sass(stmts, ind=0, unit="  "):
     return "\n".join(l for l in lines if l != "") + ("\n" if ind == 0 else "")
 
 
+def sass_blank_lines(rng, text, unit):
+    """Blank lines between the statements of an indented document, empty or holding stray white space — of the
+    OTHER kind than the indentation unit as well (a blank line is not indentation).  Never before the first
+    line ("Indenting at the beginning of the document is illegal" looks at the first character)."""
+    other = "\t" if " " in unit else "  "
+    out = []
+    lines = text.split("\n")
+    for n, l in enumerate(lines):
+        out.append(l)
+        if n < len(lines) - 1 and rng.random() < 0.25:
+            out.append(rng.choice(["", other, other * 2, unit, " ", "\t", " \t", other + " "]))
+    return "\n".join(out)
+
+
 # --------------------------------------------------------------------------------------------
 # token-preserving rewrites
 # --------------------------------------------------------------------------------------------
@@ -408,6 +431,34 @@ def insert_ws_comments(rng, src, comments=True):
     return out
 
 
+_DECL = re.compile(r"(?P<head>[;{]\s*[A-Za-z][A-Za-z-]*\s*:\s+)(?P<val>[^;{}\"'#\\/@!]*[^;{}\"'#\\/@!\s])(?P<tail>\s*(?:!important\s*)?[;}])")
+
+
+def value_newlines(rng, src):
+    """Replace single spaces BETWEEN the operands of declaration values by a line break (LF, CRLF, CR or FF,
+    possibly with a space on either side).  Values are taken only from `name: value;` / `name: value}` statements
+    whose value has no quote, `#`, backslash, slash, `@`, `!` or brace (strings, interpolation, comments, urls and
+    flags are left alone); custom properties are skipped (raw text).  On the unchanged tree every such rewrite of
+    `1px -1px`, `1 - 2`, `1 -2`, `a -b`, `$x -1`, `1 +2`, `(1 -1)`, … leaves the CSS unchanged (probed: 528 cases)."""
+    changed = [False]
+
+    def repl(m):
+        if m.group("head").lstrip(";{ \t\r\n\f").startswith("--"):
+            return m.group(0)
+        val = m.group("val")
+        spots = [i for i, c in enumerate(val) if c == " " and 0 < i < len(val) - 1 and val[i - 1] not in " \t\n\r\f" and val[i + 1] not in " \t\n\r\f"]
+        if not spots:
+            return m.group(0)
+        for i in sorted(rng.sample(spots, min(len(spots), rng.randint(1, 3))), reverse=True):
+            nl = rng.choice(["\n", "\r\n", "\r", "\f"])
+            val = val[:i] + rng.choice([nl, nl, nl + " ", " " + nl, nl + "   "]) + val[i + 1:]
+            changed[0] = True
+        return m.group("head") + val + m.group("tail")
+
+    out = _DECL.sub(repl, src)
+    return out if changed[0] else None
+
+
 _VAR = re.compile(r"\$[A-Za-z][A-Za-z0-9_-]*[A-Za-z0-9]")
 
 
@@ -481,6 +532,10 @@ CORPUS = [
     # C18-F1 (fixed by e81c3e6; must pass now): the column of a loud comment was taken from codemap (LF only, BOM counted)
     ("scss", "a{b:c}\n  /* x\n      y */\n"),
     ("scss", "  /*\n    a */"),
+    # shapes that independently seeded changes broke (must agree on the unchanged tree):
+    ("css", "a {\n  b: Darken(red, 10%);\n  c: Round(1.5);\n  d: Map-Get(x, y);\n}\n"),
+    ("scss", "a{margin: 1px -1px 2px -.5px; b: 1 - 2; c: 1 -2; d: 3 +1}"),
+    ("sass", "a\n  b: c\n  d: e\n  f\n    g: h\n"),
     # false alarms of earlier versions of the rewriters (kept so that they stay repaired):
     ("scss", "a {\n  @box-shadow: $btn-focus-box-shadow, $btn-active-box-shadow;\n}"),   # `$x` in an unknown at-rule is raw text
     ("scss", "$v-1: 1;\na{--c: $v-1, -1 + 3px;\n w: $v-1}"),                              # ... and in a custom property
@@ -557,9 +612,15 @@ def run(tier, seed):
         gen = Gen(rng)
         p = gen.program()
         scss = print_scss(rng, p)
-        sass = print_sass(p, unit=rng.choice(["  ", "    ", "\t", " "]))
+        unit = rng.choice(["  ", "    ", "\t", " "])
+        sass = print_sass(p, unit=unit)
         b = add("scss-base", scss, "scss", extra=p)
         add("scss-vs-sass", sass, "sass", base=b)
+        add("scss-vs-sass", sass_blank_lines(rng, sass, unit), "sass", base=b)
+        # the same SCSS with line breaks (any style) between the operands of declaration values
+        v = value_newlines(rng, scss)
+        if v is not None:
+            add("rewrite:value-nl", v, "scss", base=b)
         # rewrites of the generated SCSS text
         add_rewrites(ck, rng, add, scss, "scss", b, n=2 if quick else 3)
     # ---- (2) plain CSS as css vs scss -----------------------------------------------------------
@@ -578,7 +639,10 @@ def run(tier, seed):
     pick = rng.sample(cases, 500) if quick else cases
     for syn, src in CORPUS:
         b = add("corpus-base", src, syn)
-        add_rewrites(ck, rng, add, src, syn, b, n=6)
+        add_rewrites(ck, rng, add, src, syn, b, n=9)
+        if syn == "css":
+            b2 = add("css-base", src, "scss")
+            add("css-vs-scss", src, "css", base=b2)
     for c in pick:
         syn = c["options"].get("syntax", "scss")
         opts = {k: v for k, v in c["options"].items() if k != "syntax"}
@@ -836,7 +900,7 @@ def add_rewrites(ck, rng, add, src, syn, base, n, **opts):
     """n random variants of `src` that the property calls insignificant."""
     if _NONDETERMINISTIC.search(src):
         return          # output order follows hash order (a C02 matter): two runs of the SAME text differ
-    kinds = ["nl-crlf", "nl-cr", "nl-ff", "ws", "bom", "charset", "names"]
+    kinds = ["nl-crlf", "nl-cr", "nl-ff", "ws", "bom", "charset", "names", "value-nl", "sass-blank"]
     rng.shuffle(kinds)
     made = 0
     for kd in kinds:
@@ -867,6 +931,17 @@ def add_rewrites(ck, rng, add, src, syn, base, n, **opts):
             if syn == "css":
                 continue
             v = swap_names(rng, src, syn)
+        elif kd == "value-nl":
+            if syn == "sass" or _UNSAFE_FOR_INSERT.search(src):
+                continue
+            v = value_newlines(rng, src)
+        elif kd == "sass-blank":
+            # blank lines with stray white space between statements of an indented document; texts with comments
+            # (their continuation is decided by indentation) or multi-line selectors are left alone
+            if syn != "sass" or "/*" in src or "//" in src or ",\n" in src or "\\" in src:
+                continue
+            unit = "\t" if re.search(r"\n\t", src) else "  "
+            v = sass_blank_lines(rng, src.rstrip("\n"), unit) + "\n"
         if v is None or v == src:
             continue
         add("rewrite:" + kd, v, syn, base=base, **opts)
